@@ -15,4 +15,5 @@ pid_t vs_fork(void);
 void vs_user_point(void *obj);
 int vs_mutex_owner(pthread_mutex_t *m);
 int vs_steps(void);
+extern unsigned long long (*vs_state_cb)(void);
 #endif
